@@ -69,6 +69,18 @@ TASKS = [
      'p(X) :- q(X). t(X) :- q(X), X > 0. u(X) :- t(X). u(X) :- p(X).', 'input: q/1. output: p/1. output: t/1. output: u/1.'),
     ('zero-axioms-forward', 'spec', 'spec(backward): forall X (p(X) -> q(X)). spec(backward): forall X (t(X) -> q(X)).',
      'p(X) :- q(X), X > 0. t(X) :- q(X), not p(X). :- q(X), X < -5.', 'input: q/1. output: p/1. output: t/1.'),
+    ('spec-placeholder-under-negation', 'spec', 'spec: forall X (p(X) <-> q(X) and not X > n). assumption: not n < 1. '
+     'spec: not exists X (p(X) and not (X <= n and not X = m)) or p(m).', 'p(X) :- q(X), X < n.',
+     'input: n -> integer. input: m -> general. input: q/1. output: p/1. assumption: not n > 100. assumption: forall X (q(X) -> not not X != m).'),
+    # false claims (refutable obligations): weakened or vacuous premises cannot hide behind a true claim
+    ('false-placeholder-integer', 'program', 'p(1..n).', 'p(X) :- X = 0..n.', 'input: n -> integer. output: p/1. assumption: n >= 0.'),
+    ('false-placeholder-general', 'program', 'p(X) :- q(X), X != c.', 'p(X) :- q(X), not r(X). r(c). r(0).', 'input: c. input: q/1. output: p/1.'),
+    ('false-private-left', 'program', 'p(X) :- q(X), not r(X). r(X) :- q(X), X > 3.', 'p(X) :- q(X), X < 3.', 'input: q/1. output: p/1.'),
+    ('false-spec-directions', 'spec',
+     'assumption(forward): forall X (q(X) -> X > 0). spec(forward): forall X (p(X) -> q(X) and X > 2). '
+     'spec(backward): forall X (q(X) and X > 1 -> p(X)). spec: forall X (p(X) -> X != 5).', 'p(X) :- q(X), X > 1, X != 6.', 'input: q/1. output: p/1.'),
+    ('false-assumption-over-inputs', 'program', 'p(X) :- q(X), r(X, Y).', 'p(X) :- r(X, Y).',
+     'input: q/1. input: r/2. output: p/1. assumption: forall X Y (r(X, Y) -> q(Y)).'),
     ('constraint-only-right', 'program', 'p(X) :- q(X). :- q(X), X < 0.', 'p(X) :- q(X), X >= 0. :- q(X), not p(X).',
      'input: q/1. output: p/1.'),
 ]
